@@ -155,6 +155,7 @@ Proof.
   destruct (cfg_get c n) eqn:E; [eapply IH; eauto | congruence].
 Qed.
 
+Local Opaque fresh_name.
 Lemma add_fresh_spec U root newv : forall c c',
   add_fresh U root newv c = Ok c' -> csorted c ->
   csorted c' /\
@@ -165,12 +166,12 @@ Lemma add_fresh_spec U root newv : forall c c',
 Proof.
   induction newv as [|v newv IH]; intros c c' H S; simpl in H.
   - inversion H; subst. splits; auto. intros x [].
-  - destruct (fst v) eqn:Ev.
+  - destruct (fst v) as [|c0 p0] eqn:Ev.
     + destruct (IH c c' H S) as (A & B & C & D). splits; auto.
       * intros n x Hx. destruct (C n x Hx) as [X|(X1 & X2 & X3 & X4)]; auto. right. splits; auto. now right.
       * intros x [Hx|Hx] Hne; [subst; congruence | auto].
     + rewrite <- Ev in *. assert (Hne : fst v <> []) by (rewrite Ev; discriminate).
-      destruct (names_of root (fst v)) eqn:En.
+      destruct (names_of root (fst v)) as [|nm0 nms] eqn:En.
       * destruct (resolve_project U v) as [pr|]; [|discriminate]. cbv zeta in H.
         match type of H with context [fresh_name ?f ?a ?b ?s c] => destruct (fresh_name f a b s c) as [nm|] eqn:Ef end;
           [|discriminate].
@@ -188,4 +189,38 @@ Proof.
       * destruct (IH c c' H S) as (A & B & C & D). splits; auto.
         -- intros n x Hx. destruct (C n x Hx) as [X|(X1 & X2 & X3 & X4)]; auto. right. splits; auto. now right.
         -- intros x [Hx|Hx] Hnx Hno; [subst; congruence | auto].
+Qed.
+Local Transparent fresh_name.
+
+Lemma in_names_of root n p v : In (n, (p, v)) root -> In n (names_of root p).
+Proof.
+  intros H. unfold names_of. apply in_map_iff. exists (n, (p, v)). split; auto.
+  apply filter_In. split; auto. simpl. apply str_eqb_refl.
+Qed.
+
+Theorem transform_spec U root (tx : list node -> outcome (list node)) c' newv :
+  names_unique root -> NoDup (map fst newv) -> (forall x, In x newv -> fst x <> []) ->
+  tx (map snd root) = Ok newv -> transform_reqs U root tx = Ok c' ->
+  csorted c' /\
+  same_set (map snd c') newv /\
+  (forall n p v0 v, In (n, (p, v0)) root -> In (p, v) newv -> cfg_get c' n = Some (p, v)) /\
+  (forall x, In x newv -> names_of root (fst x) = [] ->
+             exists n, cfg_get c' n = Some x /\ cfg_get (keep_old root newv) n = None).
+Proof.
+  intros NU ND NE Etx H. unfold transform_reqs in H. rewrite Etx in H. simpl in H.
+  assert (S0 : csorted (keep_old root newv)) by (rewrite keep_old_fold; apply keep_old_sorted; constructor).
+  destruct (add_fresh_spec U root newv _ _ H S0) as (A & B & C & D).
+  pose proof (keep_old_spec root newv NU ND []) as K. rewrite <- keep_old_fold in K.
+  splits; auto.
+  - intros x. split.
+    + intros Hx. apply in_map_iff in Hx. destruct Hx as ([n y] & E & Hy). simpl in E. subst y.
+      apply (cfg_In_get c' n x A) in Hy. destruct (C n x Hy) as [X|(X & _)]; auto.
+      apply K in X. destruct X as [(X & _)|(X & _)]; auto. discriminate.
+    + intros Hx. assert (exists n, cfg_get c' n = Some x) as (n & Hn).
+      { destruct (names_of root (fst x)) as [|n ns] eqn:En.
+        - destruct (D x Hx (NE x Hx) En) as (n & N1 & _). eauto.
+        - exists n. apply B. apply K. left. splits; auto. rewrite En. now left. }
+      apply (cfg_In_get c' n x A) in Hn. now apply (in_map snd _ (n, x)).
+  - intros n p v0 v Hr Hv. apply B. apply K. left. splits; auto; try apply (NE (p, v) Hv).
+    simpl. eapply in_names_of; eauto.
 Qed.
